@@ -1,0 +1,14 @@
+//go:build verif
+
+package routine
+
+// VerifHook, when set, is called at every schedule point of this package:
+//
+//	site 0: top of runningRoutine.execute, before it waits for its predecessor (obj: the *runningRoutine)
+var VerifHook func(site int, obj any)
+
+func verifPoint(site int, obj any) {
+	if h := VerifHook; h != nil {
+		h(site, obj)
+	}
+}
